@@ -11,7 +11,10 @@ Relations
             Python entry point on the same parameters, once more respelled (short <-> long,
             file of the drawn shape <-> repeated options) and, when the selection names unknown
             entries, once more without them; outputs compared line by line, exit codes,
-            samples/IDs present in the output, messages of level >= WARNING and library warnings
+            samples/IDs present in the output, messages of level >= WARNING and library warnings,
+            and which of the output files the subcommand documents exist afterwards.  Every
+            subcommand is also run in configurations meant to fail (FAIL_CLASSES); index --no-sort
+            is compared with the model of index_haps' tail (order of the data lines -> exit status)
 """
 import gzip
 import hashlib
@@ -26,14 +29,18 @@ from .core import Relation, err_kind
 
 PROP = "C19"
 CLAIMED = True
-COQ_MODULES = ["C19_Check", "C19_Proofs"]
+COQ_MODULES = ["C19_Check", "C19_Proofs", "C19_ProofsExit"]
 PROPERTY_MODULE = "C19_Property"
 ALLOWED_AXIOMS = []
 RULE = (
     "resolve: an invocation that restricts samples and/or IDs with >= 2 entries or through a file (incl. duplicates, "
     "unknown entries, LF / unterminated / CRLF / blank-last-line / blank-line-inside / vertical-tab / U+2028 / empty "
     "files, both forms). cli: a run of one of the seven subcommands that completes and writes non-empty output, or one "
-    "that restricts samples/IDs (incl. unknown entries, both forms, every file shape). Distinct = distinct canonical JSON."
+    "that restricts samples/IDs (incl. unknown entries, both forms, every file shape), or one of a class of configuration "
+    "meant to fail (every subcommand: output directory absent; transform/simphenotype/ld: a missing call, only unknown "
+    "IDs, an absent target, a repeat without --repeats, --ancestry without ancestry; index --no-sort on lines tabix "
+    "refuses; clump: a column that is not there; simgenotype: a chromosome / model it rejects; karyogram: an absent "
+    "sample). Distinct = distinct canonical JSON."
 )
 TRUSTED = [
     "click: parses the command line and passes declared option values (repeated options as a tuple, click.File as an "
@@ -46,6 +53,13 @@ TRUSTED = [
     "whitespace, with []{}()'\"`,:;. stripped from both ends of a word, and words are interned",
     "harness-side writers of the inputs (bgzip/tabix via pysam, BCF via pysam.bcftools, PGEN via pgenlib, C01's "
     "model/map files, C11's .hap files, C17's clump inputs)",
+    "the list of output files each subcommand documents (harness doc_outputs: transform -o FILE, or FILE.pgen + .pvar + "
+    ".psam; simphenotype -o FILE; ld -o FILE; index <out> and <out>.tbi with <out> = -o or <input>.gz; clump --out FILE; "
+    "simgenotype <prefix>.bp and, unless --only_breakpoint, --out FILE (+ .pvar/.psam for PGEN); karyogram --out FILE) "
+    "and os.path.exists as the test that one was written",
+    "htslib's tabix (via pysam.tabix_index) refuses exactly the line orders tabix_accepts rejects (model copied from "
+    "C11; compared with the real tabix on every index --no-sort case through agree_index); the harness reads "
+    "(sequence name, start, end) off each data line by splitting at tabs",
 ]
 ASSUMPTIONS = [
     "file == repeated options is demanded (holds) for a list of >= 1 entries none of which contains a line boundary "
@@ -59,11 +73,15 @@ ASSUMPTIONS = [
     "(agree). Empty files: DESIGN.md section 10.",
     "unknown entries ('reported and ignored'): judged against the same command line without the unknown entries, when "
     "every restricted selection keeps >= 1 known entry: same exit status and same output (ignored); if the run exits 0 "
-    "and the verbosity is INFO (default), WARNING or DEBUG, at least one message of level >= WARNING or library warning "
-    "that the run without them does not give (reported); for --id/--ids-file of transform and simphenotype and the "
-    "haplotype IDs of ld each unknown entry (at most five: the messages list 'the first few') must moreover be a word "
-    "of a message of level >= WARNING, because those commands name them. For samples and for ld --from-gts only the "
-    "weaker form is demanded.",
+    "and the verbosity is INFO (default), NOTSET, WARNING or DEBUG, at least one message of level >= WARNING or library "
+    "warning that the run without them does not give, and at least one of the unknown entries is a word of a message of "
+    "level >= WARNING (reported: a report says what it is about), for samples and IDs of all three commands that take "
+    "them; for --id/--ids-file of transform and simphenotype and the haplotype IDs of ld each unknown entry (at most "
+    "five: the messages list 'the first few') must moreover be such a word, because those commands name them all.",
+    "'a failing run exits non-zero': a run is taken to be failing when an output file the subcommand documents does not "
+    "exist afterwards, or when the documented Python entry point, given the same parameters, raises (or returns without "
+    "having written a documented output). Nothing is demanded of runs that merely log an ERROR (simphenotype "
+    "--no-normalize without --heritability logs one and completes by design).",
     "--id next to --ids-file: the property does not say which wins; the model (file wins) is compared (agree), holds "
     "demands only exit-status / respelling / unknown-entry clauses for such runs",
     "cli configurations avoid inputs that trip defects owned by other properties (un-indexed VCF, effect IDs absent from "
@@ -349,10 +367,86 @@ SEED_BOUNDARY = [0, 1, 42, 2**32 - 1]
 UNKNOWN_S = ["NOSUCHSAMPLE", "NOSUCHSAMPLE2"]
 UNKNOWN_I = ["NOSUCHID", "NOSUCHID2"]
 POPS = ["YRI", "CEU"]
+# sample counts around the widths of fixed-size integer arrays and numpy's print summarisation threshold
+WIDE_N = [127, 128, 255, 256, 1000, 1001]
+# configurations meant to fail (the Python entry point raises / a documented output cannot be written)
+FAIL_CLASSES = {
+    0: ["missing-call", "outdir", "only-unknown-ids", "absent-variant", "ancestry-without-bp"],
+    1: ["missing-call", "outdir", "only-unknown-ids", "repeat-line"],
+    2: ["missing-call", "outdir", "absent-target"],
+    3: ["unsorted-no-sort", "unsorted-no-sort", "unsorted-no-sort", "outdir"],
+    4: ["missing-column", "missing-column", "outdir"],
+    5: ["bad-chrom", "bad-model", "outdir"],
+    6: ["absent-sample", "absent-sample", "outdir"],
+}
 
 
-def gen_dataset(rng):
-    n = int(rng.integers(3, 7))
+def tbx_triples(lines):
+    """what tabix sees (seq_col=1, start_col=2, end_col=3, meta char '#') of the data lines: [[seq, start, end]];
+    None when a line has no such reading"""
+    out = []
+    for s in lines:
+        if s.startswith("#"):
+            continue
+        f = s.split("\t")
+        try:
+            if len(f) < 4 or str(int(f[2])) != f[2] or str(int(f[3])) != f[3]:
+                return None
+            out.append([f[1], int(f[2]), int(f[3])])
+        except ValueError:
+            return None
+    return out
+
+
+def tabix_accepts(triples):
+    """generator-side mirror of C19_Model.tabix_accepts (used only to aim the generator, never to judge)"""
+    seen, cur = set(), None
+    for q, s_, e in triples:
+        if s_ - 1 > e:
+            return False
+        if cur is not None:
+            if q == cur[0]:
+                if cur[1] > s_:
+                    return False
+            else:
+                if q in seen or q == cur[0]:
+                    return False
+                seen.add(cur[0])
+        cur = (q, s_)
+    return True
+
+
+def doc_outputs(inp, outdir):
+    """the output files the subcommand documents for this configuration"""
+    cmd, p = inp["cmd"], inp["params"]
+    base = os.path.join(outdir, p["outdir"]) if p.get("outdir") else outdir
+    j = lambda *n: [os.path.join(base, x) for x in n]
+    if cmd == 0:
+        return j("out.pgen", "out.pvar", "out.psam") if p.get("pgen") else j("out.vcf")
+    if cmd == 1:
+        return j("out.pheno")
+    if cmd == 2:
+        return j("out.ld" if p["from_gts"] else "out.hap")
+    if cmd == 3:
+        if p["explicit"]:
+            return j("out.hap.gz", "out.hap.gz.tbi")
+        return [os.path.join(outdir, "in.hap.gz"), os.path.join(outdir, "in.hap.gz.tbi")]
+    if cmd == 4:
+        return j("out.clump")
+    if cmd == 5:
+        ext = p.get("out", "vcf")
+        if p["only_bp"]:
+            return j("sim.bp")
+        return j("sim.bp", "sim." + ext) + (j("sim.pvar", "sim.psam") if ext == "pgen" else [])
+    return j("k.png")
+
+
+def missing_outputs(inp, outdir):
+    return [os.path.relpath(x, outdir) for x in doc_outputs(inp, outdir) if not os.path.exists(x)]
+
+
+def gen_dataset(rng, n=None):
+    n = int(rng.integers(3, 7)) if n is None else n
     m = int(rng.integers(4, 8))
     samples = [f"S{i}" for i in range(n)]
     pos = sorted(int(x) for x in rng.choice(np.arange(100, 2000, 50), size=m, replace=False))
@@ -576,13 +670,15 @@ class Cli(Relation):
     coq_module = "C19_Check"
     coq_check = "check_cli"
     coq_case_type = "ccase"
-    coq_model = "model_cli"
+    coq_model = "model_cli_shown"
     coq_imports = ["C19_Model"]
-    budget = {"quick": 300, "thorough": 4000}
+    budget = {"quick": 400, "thorough": 4000}
     max_cases_per_shard = 50
     timeout_per_case = 300
     anchors = [("haptools/__main__.py", n) for n in
-               ("transform", "simphenotype", "ld", "index", "clump", "simgenotype", "karyogram")]
+               ("transform", "simphenotype", "ld", "index", "clump", "simgenotype", "karyogram")] + [
+        # modelled in C19_Model.v (index_tail)
+        ("haptools/index.py", "index_haps")]
 
     # ---- generation
     def _selection(self, rng, pool, unknown):
@@ -611,16 +707,87 @@ class Cli(Relation):
             return SEED_BOUNDARY[int(rng.integers(0, len(SEED_BOUNDARY)))]
         return int(rng.integers(1, 2**31 - 1))
 
-    def _case(self, rng, cmd):
+    def _apply_fail(self, rng, inp, cls):
+        """turn a configuration into one of a class meant to fail"""
+        from . import c11
+
+        cmd, p = inp["cmd"], inp["params"]
+        inp["fail"] = cls
+        if cls == "outdir":
+            # the directory the output is to be written into does not exist
+            p["outdir"] = "nodir"
+            if cmd == 3:
+                p["explicit"] = True
+        elif cls == "missing-call":
+            ds = inp["data"]
+            key = "hgts" if cmd == 1 else "gts"
+            j = int(rng.integers(0, len(ds[key])))
+            ds[key][j][int(rng.integers(0, len(ds["samples"])))] = [-1, -1]
+            p["discard_missing"] = False
+        elif cls == "only-unknown-ids":
+            inp["ids"] = [UNKNOWN_I[0]] + ([UNKNOWN_I[1]] if rng.random() < 0.3 else [])
+            inp["iform"] = ["opts", "file"][int(rng.integers(0, 2))]
+            inp["istyle"] = "lf"
+            inp.pop("ids_extra", None)
+        elif cls == "absent-variant":
+            # an allele of a haplotype belongs to a variant the genotypes do not have
+            h = inp["data"]["haps"][int(rng.integers(0, len(inp["data"]["haps"])))]
+            h["vars"].append(["vABSENT", 2100, "A"])
+            h["end"] = 2101
+        elif cls == "repeat-line":
+            # a repeat among the causal effects without --repeats
+            p["repeat_line"] = True
+            p["effects"] = "hap"
+            if inp.get("ids"):
+                inp["ids"] = inp["ids"] + ["STR1"]
+        elif cls == "ancestry-without-bp":
+            # --ancestry with genotypes that carry no ancestry and have no .bp file next to them
+            p["fmt"] = "pgen"
+            p["ancestry"] = True
+            if p.get("chunk") is None:
+                p["chunk"] = 2
+        elif cls == "absent-target":
+            p["target"] = "NOSUCHTARGET"
+        elif cls == "unsorted-no-sort":
+            p["sort"] = False
+            for _ in range(8):
+                t = tbx_triples(inp["lines"])
+                if t is not None and not tabix_accepts(t):
+                    break
+                inp["lines"] = c11.gen_file(rng, "wf", "shuffled")
+        elif cls == "missing-column":
+            p["missing_col"] = ["p", "id", "chrom", "pos"][int(rng.integers(0, 4))]
+        elif cls == "bad-chrom":
+            if inp["cfg"]["region"]:
+                inp["fail"] = "outdir"
+                p["outdir"] = "nodir"
+            else:
+                p["bad_chrom"] = ["25", "0", "Y", "chr1"][int(rng.integers(0, 4))]
+        elif cls == "bad-model":
+            # admixture fractions of one generation do not sum to one
+            ln = inp["cfg"]["model"][int(rng.integers(0, len(inp["cfg"]["model"])))]
+            ln[2] = round(ln[2] + 0.3, 4)
+        elif cls == "absent-sample":
+            p["sample"] = "Absent_9"
+        else:
+            raise ValueError(cls)
+        return inp
+
+    def _case(self, rng, cmd, fail=None, wide=None):
         from . import c01, c11, c17
 
         inp = {"cmd": cmd, "spell": int(rng.integers(0, 1 << 12)), "seed": self._seed(rng)}
-        verbosity = [None, "INFO", "WARNING", "DEBUG", "ERROR", "CRITICAL"][int(rng.choice(6, p=[.35, .1, .25, .1, .1, .1]))]
+        verbosity = [None, "INFO", "WARNING", "DEBUG", "ERROR", "CRITICAL", "NOTSET"][
+            int(rng.choice(7, p=[.33, .1, .25, .1, .09, .09, .04]))]
         if cmd in (0, 1, 2):
-            ds = gen_dataset(rng)
+            ds = gen_dataset(rng, wide)
             inp["data"] = ds
+            if wide:
+                inp["wide"] = wide
             m = len(ds["variants"])
             s, sf, ss = self._selection(rng, ds["samples"], UNKNOWN_S)
+            if wide and rng.random() < 0.6:
+                s, sf, ss = None, "opts", "lf"
             hapids = [h["id"] for h in ds["haps"]]
             p = {"fmt": ["vcf", "bcf", "pgen"][int(rng.choice(3, p=[0.5, 0.15, 0.35]))]}
             if cmd == 2:
@@ -666,7 +833,7 @@ class Cli(Relation):
         elif cmd == 3:
             sort = bool(rng.random() < 0.6)
             inp["lines"] = c11.gen_file(rng, "wf", "shuffled" if sort else ("blocks" if rng.random() < 0.8 else "shuffled"))
-            inp["params"] = {"sort": sort, "explicit": bool(rng.random() < 0.5)}
+            inp["params"] = {"sort": sort, "explicit": bool(rng.random() < 0.5), "gz": bool(rng.random() < 0.2)}
         elif cmd == 4:
             if rng.random() < 0.5:
                 # SNPs, STRs or both, VCF or PGEN, every field name / threshold explicit (C17's generator)
@@ -686,6 +853,10 @@ class Cli(Relation):
         elif cmd == 5:
             cfg = c01.make_config(rng)
             cfg["popsize"] = int(rng.choice([10, 20, 30]))
+            if wide:
+                # the number of simulated samples (columns of the output, rows of the PSAM, haplotype blocks of the .bp)
+                cfg["nsamples"] = wide
+                inp["wide"] = wide
             inp["cfg"] = cfg
             nref = 4
             refs = []
@@ -724,10 +895,25 @@ class Cli(Relation):
                              "sample": "Sample_1" if rng.random() < 0.9 else "Absent_9",
                              "centromeres": bool(rng.random() < 0.3)}
         inp["params"]["verbosity"] = verbosity
+        if fail is None and rng.random() < 0.15:
+            fail = FAIL_CLASSES[cmd][int(rng.integers(0, len(FAIL_CLASSES[cmd])))]
+        if fail:
+            self._apply_fail(rng, inp, fail)
         return inp
 
     def generate(self, rng, n, tier):
-        return [self._case(rng, [0, 1, 2, 3, 4, 5, 6, 0, 1, 2][k % 10]) for k in range(n)]
+        out = [self._case(rng, [0, 1, 2, 3, 4, 5, 6, 0, 1, 2][k % 10]) for k in range(n)]
+        # every class of failing configuration of every subcommand, at least once per run
+        special = [self._case(rng, cmd, fail=cls) for cmd in range(7) for cls in sorted(set(FAIL_CLASSES[cmd]))]
+        # sample counts straddling 127|128, 255|256, 1000|1001 (transform / simphenotype / ld; simgenotype up to 256)
+        for k in range(3 if tier == "quick" else 32):
+            cmd = [0, 5, 1, 2][(k + int(rng.integers(0, 4))) % 4] if tier == "quick" else [0, 5, 1, 2][k % 4]
+            pool = WIDE_N[:4] if cmd == 5 else WIDE_N
+            special.append(self._case(rng, cmd, fail="", wide=pool[int(rng.integers(0, len(pool)))]))
+        special = special[:n]
+        for j, c in enumerate(special):
+            out[(j * n) // len(special)] = c
+        return out
 
     def exhaustive(self, tier):
         """every boundary seed x the two seeded commands, and every file shape x command x selection"""
@@ -749,6 +935,19 @@ class Cli(Relation):
                         continue
                     c["sstyle" if which == "samples" else "istyle"] = st
                     out.append(c)
+        # index: every order of a small file (two records of one contig, one of another, one variant line) x sorting
+        # x output location; every class of failing configuration of every subcommand, three times
+        import itertools
+
+        base = ["H\t1\t10\t15\tA", "H\t1\t20\t30\tB", "H\t2\t5\t6\tC", "V\tA\t12\t13\trs1\tT"]
+        for perm in itertools.permutations(base):
+            for sort in (False, True):
+                out.append({"cmd": 3, "spell": 0, "seed": 1, "lines": ["#\tversion\t0.2.0"] + list(perm),
+                            "params": {"sort": sort, "explicit": bool(len(out) % 2), "verbosity": None}})
+        for cmd in range(7):
+            for cls in sorted(set(FAIL_CLASSES[cmd])):
+                for _ in range(3):
+                    out.append(self._case(rng, cmd, fail=cls))
         return out
 
     # ---- building the two ways of running a configuration
@@ -759,10 +958,18 @@ class Cli(Relation):
         if cmd in (0, 1, 2) or (cmd == 4 and "data" in inp):
             f["gt"], f["hg"], f["hp"] = write_dataset(inp["data"], d, p.get("fmt", "vcf"), bool(p.get("ancestry")),
                                                       p.get("effects", "hap"))
+        if cmd == 1 and p.get("repeat_line") and f["hp"].endswith(".hap"):
+            txt = open(f["hp"]).read().split("\n")
+            h0 = inp["data"]["haps"][0]
+            txt.insert(1, "#R\tbeta\t.2f\tEffect size in linear model")
+            txt.insert(len(txt) - 1, f"R\t1\t{h0['start']}\t{h0['end']}\tSTR1\t0.25")
+            with open(f["hp"], "w") as fh:
+                fh.write("\n".join(txt))
         if cmd == 3:
-            with open(os.path.join(d, "in.hap"), "w") as fh:
+            # plain or gzip-compressed input (the default output location of the latter is the input itself)
+            f["hap"] = os.path.join(d, "in.hap.gz" if p.get("gz") else "in.hap")
+            with (gzip.open(f["hap"], "wt") if p.get("gz") else open(f["hap"], "w")) as fh:
                 fh.write("".join(s + "\n" for s in inp["lines"]))
-            f["hap"] = os.path.join(d, "in.hap")
         if cmd == 4 and "data" in inp:
             path = os.path.join(d, "stats.linear")
             with open(path, "w") as fh:
@@ -824,10 +1031,26 @@ class Cli(Relation):
                     changed = True
         return out if changed else None
 
+    @staticmethod
+    def _clump_fields(inp):
+        """the column names handed to clump; a configuration of class missing-column names one that is absent"""
+        fld = dict(inp["clump"]["fields"]) if "clump" in inp else {"id": "ID", "p": "P", "chrom": "CHROM", "pos": "POS"}
+        if inp["params"].get("missing_col"):
+            fld[inp["params"]["missing_col"]] = "NOSUCHCOLUMN"
+        return fld
+
+    @staticmethod
+    def _chroms(inp):
+        cfg = inp["cfg"]
+        return list(cfg["chroms"]) + ([inp["params"]["bad_chrom"]] if inp["params"].get("bad_chrom") else [])
+
     def _argv(self, inp, f, d, outdir, tag, swap):
         cmd, p, sp = inp["cmd"], inp["params"], inp["spell"] ^ (0xFFF if swap else 0)
         bit = lambda j: (sp >> j) & 1
         a = [CMDS[cmd]]
+        real_outdir = outdir
+        if p.get("outdir"):
+            outdir = os.path.join(outdir, p["outdir"])
         verb = [] if p.get("verbosity") is None else ["-v" if bit(11) else "--verbosity", p["verbosity"]]
         if cmd in (0, 1, 2):
             sform, iform = inp["sform"], inp["iform"]
@@ -883,24 +1106,28 @@ class Cli(Relation):
             elif bit(9):
                 a.append("--sort")
             # the default output location is next to the input: give every run its own copy
-            src = os.path.join(outdir, "in.hap")
+            src = os.path.join(real_outdir, os.path.basename(f["hap"]))
             shutil.copy(f["hap"], src)
             if p["explicit"]:
                 a += ["-o" if bit(8) else "--output", os.path.join(outdir, "out.hap.gz")]
             a += verb + [src]
         elif cmd == 4 and "clump" in inp:
             cfg, paths = inp["clump"], f["clump"]
+            fld = self._clump_fields(inp)
             a += ["--ld", cfg["ld"], "--clump-p1", cfg["p1"], "--clump-p2", cfg["p2"], "--clump-kb", cfg["kb"],
-                  "--clump-r2", cfg["r2"], "--clump-id-field", cfg["fields"]["id"], "--clump-field", cfg["fields"]["p"],
-                  "--clump-chrom-field", cfg["fields"]["chrom"], "--clump-pos-field", cfg["fields"]["pos"]]
+                  "--clump-r2", cfg["r2"], "--clump-id-field", fld["id"], "--clump-field", fld["p"],
+                  "--clump-chrom-field", fld["chrom"], "--clump-pos-field", fld["pos"]]
             for opt, key in (("--summstats-snps", "summstats_snps"), ("--summstats-strs", "summstats_strs"),
                              ("--gts-snps", "gts_snps"), ("--gts-strs", "gts_strs")):
                 if paths[key]:
                     a += [opt, paths[key]]
             a += ["--out", os.path.join(outdir, "out.clump")] + verb
         elif cmd == 4:
-            a += ["--summstats-snps", f["stats"], "--gts-snps", f["gt"], "--clump-id-field", "ID",
-                  "--clump-chrom-field", "CHROM", "--clump-pos-field", "POS"]
+            fld = self._clump_fields(inp)
+            a += ["--summstats-snps", f["stats"], "--gts-snps", f["gt"], "--clump-id-field", fld["id"],
+                  "--clump-chrom-field", fld["chrom"], "--clump-pos-field", fld["pos"]]
+            if fld["p"] != "P":
+                a += ["--clump-field", fld["p"]]
             for key, opt in (("p1", "--clump-p1"), ("p2", "--clump-p2"), ("kb", "--clump-kb"), ("r2", "--clump-r2")):
                 if p.get(key) is not None:
                     a += [opt, str(p[key])]
@@ -915,7 +1142,7 @@ class Cli(Relation):
                 r = cfg["region"]
                 a += ["--region", f"{r['chr']}:{r['start']}-{r['end']}"]
             else:
-                a += ["--chroms", ",".join(cfg["chroms"])]
+                a += ["--chroms", ",".join(self._chroms(inp))]
             for key, opt in (("only_bp", "--only_breakpoint"), ("pop_field", "--pop_field"),
                              ("sample_field", "--sample_field"), ("no_replacement", "--no_replacement")):
                 if p.get(key):
@@ -957,6 +1184,9 @@ class Cli(Relation):
         cmd, p = inp["cmd"], inp["params"]
         log = getLogger(CMDS[cmd], p.get("verbosity") or "INFO")
         sset = lambda l: None if l is None else set(l)
+        real_outdir = outdir
+        if p.get("outdir"):
+            outdir = os.path.join(outdir, p["outdir"])
         if cmd == 0:
             from haptools.transform import transform_haps
 
@@ -979,7 +1209,7 @@ class Cli(Relation):
         elif cmd == 3:
             from haptools.index import index_haps
 
-            src = os.path.join(outdir, "in.hap")
+            src = os.path.join(real_outdir, os.path.basename(f["hap"]))
             shutil.copy(f["hap"], src)
             index_haps(Path(src), p["sort"], (Path(outdir) / "out.hap.gz") if p["explicit"] else None, log)
         elif cmd == 4 and "clump" in inp:
@@ -987,15 +1217,17 @@ class Cli(Relation):
 
             cfg, paths = inp["clump"], f["clump"]
             path = lambda k: None if paths[k] is None else Path(paths[k])
+            fld = self._clump_fields(inp)
             clumpstr(path("summstats_snps"), path("summstats_strs"), path("gts_snps"), path("gts_strs"),
-                     float(cfg["p1"]), float(cfg["p2"]), cfg["fields"]["id"], cfg["fields"]["p"], cfg["fields"]["chrom"],
-                     cfg["fields"]["pos"], float(cfg["kb"]), float(cfg["r2"]), cfg["ld"], Path(outdir) / "out.clump", log)
+                     float(cfg["p1"]), float(cfg["p2"]), fld["id"], fld["p"], fld["chrom"],
+                     fld["pos"], float(cfg["kb"]), float(cfg["r2"]), cfg["ld"], Path(outdir) / "out.clump", log)
         elif cmd == 4:
             from haptools.clump import clumpstr
 
             dflt = lambda k, v: v if p.get(k) is None else p[k]
-            clumpstr(Path(f["stats"]), None, Path(f["gt"]), None, dflt("p1", 0.0001), dflt("p2", 0.01), "ID", "P",
-                     "CHROM", "POS", dflt("kb", 250), dflt("r2", 0.5), p["ld"] or "Pearson",
+            fld = self._clump_fields(inp)
+            clumpstr(Path(f["stats"]), None, Path(f["gt"]), None, dflt("p1", 0.0001), dflt("p2", 0.01), fld["id"], fld["p"],
+                     fld["chrom"], fld["pos"], dflt("kb", 250), dflt("r2", 0.5), p["ld"] or "Pearson",
                      Path(outdir) / "out.clump", log)
         elif cmd == 5:
             import re
@@ -1004,7 +1236,7 @@ class Cli(Relation):
             cfg = inp["cfg"]
             out = os.path.join(outdir, "sim." + p.get("out", "vcf"))
             region = dict(cfg["region"]) if cfg["region"] else None
-            chroms = [region["chr"]] if region else list(cfg["chroms"])
+            chroms = [region["chr"]] if region else self._chroms(inp)
             out_prefix = re.split(r"(\.vcf|\.bcf|\.vcf\.gz|\.pgen)$", out)[0]
             # documented: the two flags do not apply to PGEN output
             pgen_out = out.endswith(".pgen")
@@ -1041,7 +1273,7 @@ class Cli(Relation):
                 with Capture(CMDS[inp["cmd"]]) as cap:
                     code, exc, raised, tail, _usage = invoke(self._argv(cfg, f, os.path.join(d, tag), outdir, tag, swap))
                 res[tag] = {"exit": code, "exc": exc, "raised": raised, "out": intern_outputs(outdir, I), "tail": tail,
-                            "msgs": cap.msgs}
+                            "msgs": cap.msgs, "missing": missing_outputs(cfg, outdir)}
                 if tag == "cli":
                     res["members"] = out_members(inp["cmd"], outdir, inp["params"])
             outdir = os.path.join(d, "py", "o")
@@ -1049,11 +1281,11 @@ class Cli(Relation):
             with Capture(CMDS[inp["cmd"]]):
                 try:
                     self._python(inp, f, outdir)
-                    res["py"] = {"ok": intern_outputs(outdir, I)}
+                    res["py"] = {"ok": intern_outputs(outdir, I), "missing": missing_outputs(inp, outdir)}
                 except SystemExit as e:
                     # karyogram reports an absent sample with sys.exit(1)
                     if e.code in (0, None):
-                        res["py"] = {"ok": intern_outputs(outdir, I)}
+                        res["py"] = {"ok": intern_outputs(outdir, I), "missing": missing_outputs(inp, outdir)}
                     else:
                         res["py"] = {"err": err_kind(e), "cls": "SystemExit", "msg": str(e.code)}
                 except Exception as e:  # noqa
@@ -1067,7 +1299,7 @@ class Cli(Relation):
         cmd = inp["cmd"]
         if "cli" not in obs:
             return (f"(mkcc {cmd} false false false 97 false [] (Err 97) None None false [] "
-                    f"None [] None None [] None)")
+                    f"None [] None None [] None [] [] None)")
         both = inp.get("sform") == "both"
         ids_both = inp.get("iform") == "both"
         c, alt = obs["cli"], obs["alt"]
@@ -1100,11 +1332,21 @@ class Cli(Relation):
             ref = (f"(Some ({L.z(r['exit'])}, {L.zl(r['out'])}, "
                    f"{L.zl([I(('msg', m[1])) for m in r['msgs']])}))")
             logs = L.lst(c["msgs"], msg)
-        verbose = p.get("verbosity") in (None, "INFO", "WARNING", "DEBUG")
+        verbose = p.get("verbosity") in (None, "INFO", "WARNING", "DEBUG", "NOTSET")
+        # documented outputs that are absent after the run; for index --no-sort into an existing directory the model
+        # decides from the order of the data lines whether the run completes
+        miss = zs([("file", x) for x in c.get("missing", [])])
+        py_miss = zs([("file", x) for x in obs["py"].get("missing", [])])
+        index = "None"
+        if cmd == 3 and not p["sort"] and not p.get("outdir"):
+            t = tbx_triples(inp["lines"])
+            if t is not None:
+                index = "(Some " + L.lst(t, lambda r: f"({L.z(I(('seq', r[0])))}, {L.z(r[1])}, {L.z(r[2])})") + ")"
         return (f"(mkcc {cmd} {L.b(both)} {L.b(ids_both)} {L.b(bool(p.get('from_gts')))} {L.z(c['exit'])} "
                 f"{L.b(c['raised'])} {L.zl(c['out'])} "
                 f"{L.res(obs['py'], L.zl)} (Some ({L.z(alt['exit'])}, {L.zl(alt['out'])})) {ref} {L.b(verbose)} {logs} "
-                f"{oz(req_s)} {zs(known_s)} {oz(out_s)} {oz(sel_i)} {oz(req_i)} {zs(known_i)} {oz(out_i)})")
+                f"{oz(req_s)} {zs(known_s)} {oz(out_s)} {oz(sel_i)} {oz(req_i)} {zs(known_i)} {oz(out_i)} "
+                f"{miss} {py_miss} {index})")
 
     def nontrivial(self, inp, obs):
         if "cli" not in obs:
@@ -1148,7 +1390,29 @@ class Cli(Relation):
         if inp["cmd"] == 5:
             out.append(f"simgenotype:out={p.get('out', 'vcf')}")
         out.append(f"verbosity={p.get('verbosity')}")
+        if inp.get("fail"):
+            done = "cli" in obs and obs["cli"]["exit"] == 0
+            out.append(f"{name}:meant-to-fail:{inp['fail']}" + (":completed-all-the-same" if done else ""))
+        if inp.get("wide"):
+            out.append(f"{name}:samples={inp['wide']}")
+        if inp["cmd"] == 3:
+            t = tbx_triples(inp["lines"])
+            out.append(f"index:{'gz-input:' if p.get('gz') else ''}{'sort' if p['sort'] else 'no-sort'}:"
+                       f"{'unreadable' if t is None else ('tabix-order' if tabix_accepts(t) else 'not-in-tabix-order')}")
+        if inp["cmd"] == 5:
+            for key in ("only_bp", "pop_field", "sample_field", "no_replacement"):
+                if p.get(key):
+                    out.append(f"simgenotype:{key}")
+            out.append(f"simgenotype:ref={p.get('ref_fmt', 'vcf')}")
+        if inp["cmd"] == 6 and p.get("centromeres"):
+            out.append("karyogram:centromeres")
+        if inp["cmd"] == 1 and p.get("effects") == "snplist":
+            out.append("simphenotype:snplist")
+        if inp["cmd"] == 0 and p.get("pgen"):
+            out.append("transform:output=pgen")
         if "cli" in obs:
+            if obs["cli"].get("missing"):
+                out.append(f"{name}:documented-output-missing")
             out.append(f"{name}:exit={obs['cli']['exit']}")
             if "err" in obs["py"]:
                 out.append(f"{name}:py-raised-{obs['py'].get('cls')}")
@@ -1174,12 +1438,30 @@ class Cli(Relation):
                            ("normalize", True)):
                 if key in p and p[key] != v:
                     yield dict(inp, params=dict(p, **{key: v}))
+        if inp["cmd"] == 3:
+            from . import c11
+
+            for l in c11.shrink_lines(inp["lines"]):
+                yield dict(inp, lines=l)
+            if not inp["params"]["explicit"]:
+                yield dict(inp, params=dict(inp["params"], explicit=True))
+            if inp["params"].get("gz"):
+                yield dict(inp, params=dict(inp["params"], gz=False))
+        if inp["cmd"] >= 3 and inp["params"].get("verbosity") is not None:
+            yield dict(inp, params=dict(inp["params"], verbosity=None))
         if inp["cmd"] in (1, 5) and inp["seed"] not in (0, 1):
             yield dict(inp, seed=1)
         if inp["spell"]:
             yield dict(inp, spell=0)
 
     def mutate(self, inp, rng):
+        if inp["cmd"] == 3:
+            # the same lines in other orders, with and without sorting
+            for _ in range(4):
+                perm = [inp["lines"][int(j)] for j in rng.permutation(len(inp["lines"]))]
+                head = [x for x in perm if x.startswith("#")]
+                yield dict(inp, lines=head + [x for x in perm if not x.startswith("#")],
+                           params=dict(inp["params"], sort=bool(rng.random() < 0.3)))
         for s in SEED_BOUNDARY:
             if inp["cmd"] in (1, 5) and inp["seed"] != s:
                 yield dict(inp, seed=s)
@@ -1195,7 +1477,8 @@ class Cli(Relation):
         return (f"cli {CMDS[inp['cmd']]} selection={'+'.join(files) or 'none'} exit={obs['cli']['exit']} "
                 f"raised={obs['cli']['exc']} respelled-exit={obs['alt']['exit']} respelled-raised={obs['alt']['exc']} "
                 f"python={'ok' if 'ok' in obs['py'] else obs['py'].get('cls')}"
-                + (f" without-unknown-exit={ref['exit']}" if ref else ""))
+                + (f" without-unknown-exit={ref['exit']}" if ref else "")
+                + (f" documented-outputs-missing={sorted(obs['cli']['missing'])}" if obs["cli"].get("missing") else ""))
 
 
 RELATIONS = [Resolve(), Cli()]
@@ -1207,12 +1490,19 @@ LEVEL_TEXT = (
     "membership); tied to /repo on every run by evaluating in Coq model-vs-implementation agreement on what the entry "
     "points receive (recorder in place of the entry point) and, for all seven subcommands, CliRunner-vs-Python-entry-"
     "point output equality, respelled command lines, exit codes, and the run without its unknown entries (ignored / "
-    "reported)."
+    "reported). 'A failing run exits non-zero': a file-level Gallina model of index_haps' tail (tabix accepted/refused, "
+    "copy + unlink of the two temporary files) with theorems exit 0 <=> both documented files written <=> the data "
+    "lines are in the order tabix accepts (declarative characterisation, both directions, by induction), the refuted "
+    "'copy only if it exists' variant, and checker-soundness theorems for the clause 'documented output missing or "
+    "entry point raises => exit != 0' that is evaluated on every run of every subcommand, incl. configurations meant "
+    "to fail."
 )
 LEVEL_NOTE = (
     "Partial: click's own parsing is trusted; the theorems cover the option-resolution logic and selection by "
     "membership, the equality of whole-command outputs is established by the correspondence run only. 'reported' is "
-    "checked as 'a warning that is absent without the unknown entries' everywhere and as 'named in a warning' only "
-    "where the commands name entries (IDs of transform / simphenotype, haplotype IDs of ld)."
+    "checked as 'a warning that is absent without the unknown entries and names one of them' everywhere and as 'every "
+    "one named in a warning' where the commands name entries (IDs of transform / simphenotype, haplotype IDs of ld). "
+    "Of the failing runs only index's is modelled; for the other six subcommands 'failing => non-zero' is the checked "
+    "clause on generated failing configurations."
 )
 TECHNIQUE = "Coq proof by induction on code-point lists + vm_compute-evaluated correspondence against the implementation"
